@@ -37,6 +37,7 @@ func (C05) Info() core.Info {
 
 func (C05) Gen(r *simrt.RNG, tier string) core.Case {
 	cfg := world.SwarmCfg(r)
+	world.Deepen(&cfg, r, tier)
 	cfg.Arrays = r.Chance(1, 8)
 	cfg.Gens = false
 	cfg.MaxConvs = 2 + r.Intn(6)
